@@ -68,7 +68,7 @@ Proof. vm_compute. repeat split; reflexivity. Qed.
 (* C10: OnPrune as written. With only the lock and argument-order repairs applied, finalizing block 5 reports the
    first node of the array again and again (the loop variable j is never advanced) *)
 Definition relock_only : fixes :=
-  mkFixes false false false false false false false false true true false false false false false false.
+  mkFixes false false false false false false false false true true false false false false false false false.
 Definition h_prune : list op :=
   h_chain ++ [OBlock 2 7 3 0 0; OHead; OUpdate 6 (1, 5) (1, 5) (Some [10; 10; 10]) None].
 Lemma prune_loop_refuted :
@@ -95,7 +95,7 @@ Proof. vm_compute. split; reflexivity. Qed.
 
 (* C09: neither the current best child nor the candidate leads to a viable head, one is still chosen by weight:
    the viable parent (2,1) ends with a non-viable best descendant and FindHead errors. (All other repairs applied.) *)
-Definition all_but_nonviable : fixes := mkFixes true true true true true true true false true true true true true true true true.
+Definition all_but_nonviable : fixes := mkFixes true true true true true true true false true true true true true true true true true.
 Definition h_nonviable : list op :=
   [OBlock 1 2 1 1 0; OBlock 2 3 2 2 0; OBlock 2 4 2 2 0; OAtt 0 3 2; OAtt 1 3 2; OHead; OSlot 4 4 2 0;
    OAtt 0 4 4; OAtt 1 4 4; OAtt 2 4 4; OUpdate 1 (1, 2) (0, 1) (Some [10; 10; 10]) None; OFindHead 2 1].
@@ -122,7 +122,7 @@ Proof. vm_compute. repeat split; reflexivity. Qed.
 
 (* C10: a prune at an empty-slot anchor (root 3, slot 4) with a later block 4@5 built on root 3: without the re-parenting
    repair the block is cut off and the head stays on the empty-slot chain *)
-Definition all_but_reparent : fixes := mkFixes true true true true true true true true true true true true true true false false.
+Definition all_but_reparent : fixes := mkFixes true true true true true true true true true true true true true true false false true.
 Definition h_gap_anchor : list op :=
   [OBlock 1 2 1 0 0; OBlock 2 3 2 0 0; OSlot 3 4 0 0; OBlock 3 4 5 1 1; OBlock 4 5 6 1 1; OAtt 0 5 6; OHead;
    OUpdate 5 (1, 3) (1, 3) (Some [10; 10; 10]) None; OHead].
@@ -155,7 +155,7 @@ Proof. vm_compute. repeat split; reflexivity. Qed.
    (3,2), the node the blocks built on root 3 hang off, is gone; (3,3) is now the lowest node of root 3 and stays. With the
    re-parenting done only after a complete prune, block 4@5 keeps a dead fork-choice parent: FindHead from (3,3) misses it
    and (3,3) weighs 0 instead of 20. (All other repairs applied.) *)
-Definition all_but_partial : fixes := mkFixes true true true true true true true true true true true true true true true false.
+Definition all_but_partial : fixes := mkFixes true true true true true true true true true true true true true true true false true.
 Definition h_gap_fail : list op :=
   [OBlock 1 2 1 0 0; OBlock 2 3 2 0 0; OBlock 3 4 5 1 1; OBlock 4 5 6 1 1; OAtt 0 5 6; OAtt 1 5 6; OHead;
    OUpdate 5 (1, 3) (1, 3) (Some [10; 10; 10]) (Some 5); OFindHead 3 3].
@@ -164,14 +164,31 @@ Lemma prune_partial_reparent_refuted :
   last_exp (spec_from (init0 false) h_gap_fail) = EVal (RRef (5, 6)) /\
   last_out (run_from fixed (init0 false) h_gap_fail) = Ok (RRef (5, 6)).
 Proof. vm_compute. repeat split; reflexivity. Qed.
-(* Adopted, not a defect: Head() from the justified empty-slot node (3,4) stays on root 3's empty-slot chain as long as (3,4) is not
-   the lowest node of root 3 - after the failed prune (lowest = 3), and just the same with no prune at all (SetPin to (3,4)).
-   Blocks hang off the LOWEST node of their parent root in zrnt's graph (DESIGN 4, "care taken" (1)). *)
-Lemma head_from_gap_start_adopted :
-  last_out (run_from fixed (init0 false) (removelast h_gap_fail ++ [OHead])) = Ok (RRef (3, 5)) /\
-  last_exp (spec_from (init0 false) (removelast h_gap_fail ++ [OHead])) = EVal (RRef (3, 5)) /\
-  last_out (run_from fixed (init0 false) (firstn 7 h_gap_fail ++ [OSetPin 3 4; OHead])) = Ok (RRef (3, 5)) /\
-  last_exp (spec_from (init0 false) (firstn 7 h_gap_fail ++ [OSetPin 3 4; OHead])) = EVal (RRef (3, 5)).
+(* C10/C09, reported against the first 16 repairs: a start node on an empty slot that is not the first node known for its root.
+   The blocks built on that root hang off its first node, so the walk from the start never met them: Head() from the justified
+   empty-slot node (3,4) stayed on root 3's empty slots - after the failed prune, and just the same with no prune (SetPin). *)
+Definition all_but_gaphead : fixes := mkFixes true true true true true true true true true true true true true true true true false.
+Lemma head_from_gap_start_refuted :
+  last_out (run_from all_but_gaphead (init0 false) (removelast h_gap_fail ++ [OHead])) = Ok (RRef (3, 5)) /\
+  last_exp (spec_from (init0 false) (removelast h_gap_fail ++ [OHead])) = EVal (RRef (5, 6)) /\
+  last_out (run_from fixed (init0 false) (removelast h_gap_fail ++ [OHead])) = Ok (RRef (5, 6)) /\
+  last_out (run_from all_but_gaphead (init0 false) (firstn 7 h_gap_fail ++ [OSetPin 3 4; OHead])) = Ok (RRef (3, 5)) /\
+  last_exp (spec_from (init0 false) (firstn 7 h_gap_fail ++ [OSetPin 3 4; OHead])) = EVal (RRef (5, 6)) /\
+  last_out (run_from fixed (init0 false) (firstn 7 h_gap_fail ++ [OSetPin 3 4; OHead])) = Ok (RRef (5, 6)).
+Proof. vm_compute. repeat split; reflexivity. Qed.
+(* ... and a legitimate update whose finalized AND justified checkpoints sit on empty slots was refused ("not a viable head"),
+   leaving the checkpoints moved, nothing pruned, and Head() on the empty slots of root 3: blocks 2@1, 3@6, 4@9 (4 carries justified 2, finalized 1),
+   finalized (root 2, epoch 1) = node (2,4), justified (root 3, epoch 2) = node (3,8); OnPrune asks for a head from (2,4) *)
+Definition h_gap_fin : list op :=
+  [OBlock 1 2 1 0 0; OBlock 2 3 6 0 0; OBlock 3 4 9 2 1; OAtt 0 4 9; OAtt 1 4 9; OHead; OUpdate 4 (2, 3) (1, 2) (Some [10; 10; 10]) None].
+Lemma gap_anchor_prune_head_refuted :
+  last_out (run_from all_but_gaphead (init0 false) h_gap_fin) = Err /\
+  last_exp (spec_from (init0 false) h_gap_fin) = EVal RUnit /\
+  last_out (run_from fixed (init0 false) h_gap_fin) = Ok RUnit /\
+  last_out (run_from all_but_gaphead (init0 false) (h_gap_fin ++ [OHead])) = Ok (RRef (3, 9)) /\
+  last_exp (spec_from (init0 false) (h_gap_fin ++ [OHead])) = EVal (RRef (4, 9)) /\
+  last_out (run_from fixed (init0 false) (h_gap_fin ++ [OHead])) = Ok (RRef (4, 9)) /\
+  refines sel_c10 true (init0 false) (h_gap_fin ++ [OHead; OFin; OJust; OPin; OGetSlot 1; OGetSlot 2; OChain 3 8; OBlock 4 5 10 2 1; OAtt 2 5 10; OHead]) = true.
 Proof. vm_compute. repeat split; reflexivity. Qed.
 Lemma refines_after_sink_failure :
   refines sel_c10 true (init0 false) (h_gap_fail ++ [OHead; OFindHead 3 4; OGetSlot 3; OGetSlot 2; OChain 3 3; OAtt 2 4 5; OHead; OBlock 5 6 7 1 1; OFindHead 3 3;
